@@ -146,6 +146,26 @@ def run(ctx, rep):
     from . import c09
     c09.classification_rule(f, rep, 'C01.7')
     c09.read_predicate_rule(f, rep, 'C01.10')
+    # C01.11: the reference disk survives flush_meta + reopen (the quantifier of C01 names reopen): necessary for that is that an
+    # Ok flush_meta / shrink_caches has swept every metadata kind - the sweep-completeness obligations of the flow engine
+    # (C02.3 = C05.3), taken from the cached closure
+    from . import c04
+    rep.rule('C01.11', 'every Ok exit of flush_meta / shrink_caches has drained both top-table queues and swept both caches (what '
+                       'a reopened device reads is what was written before)')
+    d = c04.closure_cached(f)
+    n11 = 0
+    for op in ('flush_meta', 'shrink_caches'):
+        for tag, toks in d.exits.get(op, {}).items():
+            if tag is not None and tag.startswith('err'):
+                continue
+            for t in toks:
+                n11 += 1
+                ram = sorted(x[1] for x in t if x[0] == 'RAM')
+                rep.ob('C01.11', '%s exit %s' % (op, tag), not ram, 'RAM-dirty kinds at exit: %s' % ram)
+    rep.floor('flush_meta Ok exits', n11, 2)
+    for key, v in sorted(d.viol.items()):
+        if v['rule'] == 'C02.3':
+            rep.violation('C01.11', key.replace('C02.3', 'C01.11'), v['where'], v['msg'])
     from . import c08
     c08.grant_rule(f, P, rep, 'C01.8')
     # frame condition: a write that replaces a compressed cluster releases exactly the host clusters that extent touches - one
